@@ -196,7 +196,44 @@ static std::string s8_b() {
     return o;
 }
 
+// named transcoders: first use of the transcoding service's encoding-name mapping and of an ICU converter, encode + decode
+static std::string named_transcoder_body(const char* enc, const char* bytes) {
+    std::string o;
+    try {
+        TranscodeFromStr from((const XMLByte*)bytes, strlen(bytes), enc);
+        TranscodeToStr to(from.str(), enc);
+        o = std::string((const char*)to.str(), to.length()) + "|" + std::to_string(from.length());
+    } catch (const XMLException& e) { o += "[X:" + narrow16(e.getMessage()) + "]"; } catch (...) { o += "[X?]"; }
+    return o;
+}
+static std::string s9_a() { return named_transcoder_body("ISO-8859-15", "a\xA4z") + named_transcoder_body("UTF-8", "w\xC3\xB6"); }
+static std::string s9_b() { return named_transcoder_body("windows-1252", "a\x80z") + named_transcoder_body("ISO-8859-15", "\xA4"); }
+// private parsers that each build a schema grammar from memory: first use of whatever the schema traverser initialises lazily
+static std::string schema_private(const char* type, const char* value) {
+    std::string xsd = std::string("<xs:schema xmlns:xs='http://www.w3.org/2001/XMLSchema'><xs:element name='r'><xs:simpleType><xs:restriction base='xs:") + type +
+                      "'><xs:pattern value='\\p{L}*\\d*'/></xs:restriction></xs:simpleType></xs:element></xs:schema>";
+    std::string doc = std::string("<r xmlns:xsi='http://www.w3.org/2001/XMLSchema-instance' xsi:noNamespaceSchemaLocation='s.xsd'>") + value + "</r>";
+    SAX2XMLReaderImpl p;
+    Sax2CountH h;
+    p.setContentHandler(&h); p.setErrorHandler(&h);
+    p.setFeature(XMLUni::fgSAX2CoreNameSpaces, true);
+    p.setFeature(XMLUni::fgSAX2CoreValidation, true);
+    p.setFeature(XMLUni::fgXercesSchema, true);
+    MemBufInputSource xs((const XMLByte*)xsd.data(), xsd.size(), "s.xsd");
+    try {
+        p.loadGrammar(xs, Grammar::SchemaGrammarType, true);
+        p.setFeature(XMLUni::fgXercesUseCachedGrammarInParse, true);
+        MemBufInputSource s((const XMLByte*)doc.data(), doc.size(), "doc.xml");
+        p.parse(s);
+    } catch (const XMLException& e) { h.log += "[X:" + narrow16(e.getMessage()) + "]"; } catch (...) { h.log += "[X?]"; }
+    return h.log;
+}
+static std::string s10_a() { return schema_private("string", "abc12"); }
+static std::string s10_b() { return schema_private("token", "12ab"); }
+
 static std::vector<Scenario> SCENARIOS = {
+    {"named-transcoders", "first use of named transcoders (service mapping, ICU converters), decode and encode", {s9_a, s9_b}, false},
+    {"private-schema-build", "two private parsers each build a schema grammar with a pattern facet and validate", {s10_a, s10_b}, false},
     {"regex-categories", "first use of the same lazily built regex character categories", {s1_a, s1_b}, false},
     {"regex-categories-3", "three threads, first use of categories and a block", {s1_a, s1_b, s1_c}, false},
     {"shared-pool-schema", "two parsers validate against the same complex type of one locked pool for the first time", {s2_a, s2_b}, true},
